@@ -328,5 +328,10 @@ def run(chk):
     from .c10 import r10_1
     chk.rule("R10.1", "(= R08.5) listeners cleared before the first listen of every iteration, inside the generator that listens")
     chk.guard(r10_1, chk)
+    # an iteration over an Ephem asks the interpolator for every tabulated date, the last included: the bracket search
+    # must keep a query on a node inside the table (C09's clause; a second sub-agent's C08 change was exactly this)
+    from .c09 import r09_4
+    chk.rule("R09.4", "(C08 dependency) linear formula and bracket search: a query on the last node brackets inside the table")
+    chk.guard(r09_4, chk)
     chk.assume("StateVector.copy is a per-item copy (R15.1, C15); numpy arithmetic/slicing shallow-copies _data (__array_finalize__)")
     chk.assume("listeners are cleared at the start of each iteration: decided under C10 (R10.1)")
